@@ -114,7 +114,8 @@ def run(chk):
                     adv.append((m_ - x_, (m_ - x_) / m_, dts_, sts_, m_))
     hard = sorted(adv, reverse=True)[:3] + sorted(adv, key=lambda a_: -a_[1])[:3] + rng.sample(adv, min(len(adv), 9 if thorough else 6))
     # every run: computed time steps (full mantissa), one per driver
-    full = [(rng.choice(DT_COMPUTED), rng.choice(START_LITS), rng.choice([3, 7, 12])) for _ in range(3)]
+    full = [(rng.choice(DT_COMPUTED + ["0.03333333333333333", "0.031415926535897934", "0.07777777777777778"]), rng.choice(START_LITS), rng.randint(1, 40))
+            for _ in range(12)]
     plan = [(a_[2], a_[3], a_[4]) for a_ in hard] + full + [None] * n_a
     chk.count("adversarial_grid_points_available", len(adv))
     for i, forced in enumerate(plan):
